@@ -148,6 +148,12 @@ func c06Run(t *testing.T, in c06In, w *c04World) (obs c06Obs) {
 	switch in.Entry {
 	case "hs-in":
 		svc.handleConnectReq(ls)
+	case "hs-in-twice":
+		// the same remote identity handshakes again with the same node (a redial after a dropped
+		// exchange, a restart under the same key): a second exchange on a fresh stream
+		svc.handleConnectReq(ls)
+		svc.handleConnectReq(&c04Stream{rd: bytes.NewReader(wire), conn: &c04Conn{pid: pid}, writeFail: -1})
+		svc.handleConnectReq(&c04Stream{rd: bytes.NewReader(wire), conn: &c04Conn{pid: pid}, writeFail: -1})
 	case "hs-out":
 		info, _ := (&peer.AddrInfo{ID: pid, Addrs: []ma.Multiaddr{ma.StringCast("/ip4/127.0.0.1/tcp/1")}}).MarshalJSON()
 		_, _ = svc.Connect(ctx, info)
@@ -276,6 +282,51 @@ func TestVerifC06(t *testing.T) {
 			ack := c06Msg(&handshakepb.HandshakeResp{ObservedAddress: obsv, PeerType: "provider"})
 			emit(c06In{Tag: "hs-echo", Entry: "hs-in", Ed: ed, Wire: hx(append(append([]byte{}, req...), ack...))})
 			emit(c06In{Tag: "hs-echo", Entry: "hs-out", Ed: ed, Wire: hx(append(append([]byte{}, ack...), req...))})
+		}
+	}
+	// the same remote identity handshaking more than once with one node: garbage, refusals, honest
+	for _, role := range []string{"bidder", "provider"} {
+		good := c06Msg(&handshakepb.HandshakeReq{PeerType: role, Token: "tok", Sig: sign(role + "tok")})
+		ack := c06Msg(&handshakepb.HandshakeResp{ObservedAddress: crypto.PubkeyToAddress(w.localKey.PublicKey).Bytes(), PeerType: "provider"})
+		emit(c06In{Tag: "hs-repeat", Entry: "hs-in-twice", Wire: hx(append(append([]byte{}, good...), ack...))})
+		emit(c06In{Tag: "hs-repeat", Entry: "hs-in-twice", Wire: hx(good)})
+		emit(c06In{Tag: "hs-repeat", Entry: "hs-in-twice", Wire: hx(c06Frame([]byte{0xff, 0xff, 0x01}))})
+		emit(c06In{Tag: "hs-repeat", Entry: "hs-in-twice", Wire: hx(c06Msg(&handshakepb.HandshakeReq{PeerType: role, Token: "tok", Sig: cut(sign(role+"tok"), 64)}))})
+		emit(c06In{Tag: "hs-repeat", Entry: "hs-in-twice", Wire: ""})
+	}
+	// signatures that recover but are not canonical (s replaced by n-s, recovery id flipped), in the
+	// 27/28 and the 0/1 form: on a bid to the provider, on a commitment and its embedded bid to the bidder
+	malleate := func(sig []byte, raw bool) []byte {
+		c := append([]byte{}, sig...)
+		if len(c) != 65 {
+			return c
+		}
+		sv := new(big.Int).SetBytes(c[32:64])
+		sv.Sub(crypto.S256().Params().N, sv)
+		copy(c[32:64], common.LeftPadBytes(sv.Bytes(), 32))
+		if c[64] >= 27 {
+			c[64] = 55 - c[64]
+			if raw {
+				c[64] -= 27
+			}
+		} else {
+			c[64] ^= 1
+		}
+		return c
+	}
+	{
+		hb, _ := bidder.ConstructSignedBid(hex.EncodeToString(rng.bytes(32)), "1000", 10, 1, 2)
+		hc, _ := provider.ConstructPreConfirmation(hb)
+		for _, raw := range []bool{false, true} {
+			b := proto.Clone(hb).(*preconfpb.Bid)
+			b.Signature = malleate(hb.Signature, raw)
+			emit(c06In{Tag: "bid-sig-high-s", Entry: "preconf-provider", Wire: hx(append(c06Header(), c06Msg(b)...))})
+			c := proto.Clone(hc).(*preconfpb.PreConfirmation)
+			c.Signature = malleate(hc.Signature, raw)
+			emit(c06In{Tag: "commit-sig-high-s", Entry: "preconf-bidder", Wire: hx(c06Msg(c))})
+			c = proto.Clone(hc).(*preconfpb.PreConfirmation)
+			c.Bid.Signature = malleate(hc.Bid.Signature, raw)
+			emit(c06In{Tag: "commit-bidsig-high-s", Entry: "preconf-bidder", Wire: hx(c06Msg(c))})
 		}
 	}
 	// ---- bids to the provider handler: digest / signature length classes, amounts, numbers
